@@ -5,7 +5,6 @@ import (
 	"encoding/gob"
 	"fmt"
 	"time"
-	"unsafe"
 
 	"github.com/valyala/fastjson"
 )
@@ -257,10 +256,6 @@ func ToRelationship(it Item) (*Relationship, error) {
 		return i, nil
 	case Relationship:
 		return &i, nil
-	case *Object:
-		return (*Relationship)(unsafe.Pointer(i)), nil
-	case Object:
-		return (*Relationship)(unsafe.Pointer(&i)), nil
 	default:
 		return reflectItemToType[Relationship](it)
 	}
